@@ -635,9 +635,11 @@ _split_head = z3.Function("split_head", z3.StringSort(), z3.StringSort(), z3.Str
 def sym_attr(it, v, name):
     if v.kind == "str":
         if name == "startswith":
-            return SummaryFn("str.startswith", lambda it_, a, k: concretize(SBool(z3.PrefixOf(_st(a[0]), v.t))))
+            return SummaryFn("str.startswith", lambda it_, a, k: concretize(SBool(
+                z3.Or(*[z3.PrefixOf(_st(p), v.t) for p in a[0]]) if isinstance(a[0], tuple) else z3.PrefixOf(_st(a[0]), v.t))))
         if name == "endswith":
-            return SummaryFn("str.endswith", lambda it_, a, k: concretize(SBool(z3.SuffixOf(_st(a[0]), v.t))))
+            return SummaryFn("str.endswith", lambda it_, a, k: concretize(SBool(
+                z3.Or(*[z3.SuffixOf(_st(p), v.t) for p in a[0]]) if isinstance(a[0], tuple) else z3.SuffixOf(_st(a[0]), v.t))))
         if name == "split":
             return SummaryFn("str.split", lambda it_, a, k: SplitResult(v, a[0]))
         if name == "strip":
